@@ -623,6 +623,76 @@ func runC18(c *Ctx) {
 			}
 		}
 	}
+	// ------------------------------------------------------------ Y9
+	c.Rule("C18.Y9", "SAME-VALUE", "the throttle counts one window: resultSlots returns limit − finished − pending where limit is the memory-capped window, finished is counted by ranging over resultCache[:limit] — the same limit — and pending counts only headers numbered below resultOffset + limit. Counting finished results beyond the window (the whole cache) when the cap has shrunk it makes the free-slot count zero or negative although the head of the window is neither done nor in flight: nothing is reserved any more and the download hangs with idle honest peers")
+	c.Min(2)
+	{
+		rsl := w.Fn(dlPkg, "queue", "resultSlots")
+		c.sawFunc(fname(rsl))
+		rcF := w.Field(dlPkg, "queue", "resultCache")
+		// the window: minuend of the returned subtraction chain
+		var limit ssa.Value
+		for _, b := range rsl.Blocks {
+			if r, ok := b.Instrs[len(b.Instrs)-1].(*ssa.Return); ok && len(r.Results) == 1 {
+				v := stripConv(r.Results[0])
+				for i := 0; i < 4; i++ {
+					bo, isB := v.(*ssa.BinOp)
+					if !isB || bo.Op != token.SUB {
+						break
+					}
+					v = stripConv(bo.X)
+				}
+				limit = v
+			}
+		}
+		c.sites++
+		if limit == nil {
+			c.Undecided(fname(rsl)+"#one-window", rsl.Pos(), "the returned free-slot expression was not found")
+		} else {
+			// finished: every range / index over resultCache in resultSlots is bounded by limit
+			okFin, nScan := true, 0
+			why := ""
+			for _, b := range rsl.Blocks {
+				for _, in := range b.Instrs {
+					switch x := in.(type) {
+					case *ssa.Slice:
+						if f, _ := loadedField(stripConv(x.X)); f == rcF {
+							nScan++
+							if x.High == nil || stripConv(x.High) != limit {
+								okFin, why = false, "resultCache is sliced with another bound than the window at "+w.Pos(x.Pos())
+							}
+						}
+					case *ssa.IndexAddr:
+						if f, _ := loadedField(stripConv(x.X)); f == rcF {
+							nScan++
+							okFin, why = false, "resultCache is scanned without the window bound at "+w.Pos(x.Pos())
+						}
+					}
+				}
+			}
+			if nScan == 0 {
+				okFin, why = false, "no scan of resultCache found"
+			}
+			c.Check(fname(rsl)+"#finished-counted-inside-the-window", rsl.Pos(), okFin, ifelse(okFin, "ranges over resultCache[:limit]", why+": finished results outside the memory-capped window are subtracted from it, the free-slot count reaches zero with the head of the window unserved and the sync hangs"))
+			// pending: the guard compares against resultOffset + limit
+			c.sites++
+			okPen := false
+			for _, b := range rsl.Blocks {
+				for _, in := range b.Instrs {
+					bo, ok := in.(*ssa.BinOp)
+					if !ok || !(bo.Op == token.LSS || bo.Op == token.LEQ || bo.Op == token.GTR || bo.Op == token.GEQ) {
+						continue
+					}
+					for _, side := range []ssa.Value{bo.X, bo.Y} {
+						if derivesFrom(side, func(v ssa.Value) bool { return v == limit }) && derivesFrom(side, func(v ssa.Value) bool { f, _ := loadedField(v); return f != nil && f.Name() == "resultOffset" }) {
+							okPen = true
+						}
+					}
+				}
+			}
+			c.Check(fname(rsl)+"#pending-counted-inside-the-window", rsl.Pos(), okPen, ifelse(okPen, "pending headers are compared with resultOffset + limit", "in-flight headers are not compared with the end of the same window"))
+		}
+	}
 }
 
 func blockReaches(from, to *ssa.BasicBlock) bool {
